@@ -475,7 +475,14 @@ def c06_main(tier, seed, replay=None):
         viol = c06_replay(replay, cov)
         return finish("C06", tier, seed, cov, viol, t0, "replayed")
     viol = c06_spec_to_code(tier, seed, cov)
-    viol += c06_code_to_spec(tier, seed, cov)
+    try:
+        viol += c06_code_to_spec(tier, seed, cov)
+    except lib.InfraError as ex:
+        # verdicts come first: deviations already observed on the real code are reported even if the other
+        # direction could not be evaluated
+        if not viol:
+            raise
+        lib.log("note: the code -> spec direction could not be evaluated (%s); reporting the deviations already observed" % str(ex)[:800])
     return finish("C06", tier, seed, cov, viol, t0, tier)
 
 
@@ -780,10 +787,20 @@ def c07_code_to_spec(tier, seed, cov, binary=None, plan=None):
     def work(arg):
         k, gs = arg
         idxs = [i for g in gs for i in g]
-        bad, res, devs, covs = validate_committee_trace([lines[i] for i in idxs], "com-%d" % k, deviations)
+        try:
+            bad, res, devs, covs = validate_committee_trace([lines[i] for i in idxs], "com-%d" % k, deviations)
+        except lib.InfraError as ex:
+            return ex
         return (None if bad is None else idxs[bad], res, [(d, idxs[ln - 1]) for d, ln in devs],
                 {idxs[ln - 1]: c for ln, c in covs.items()})
     outs = lib.parallel_map(work, list(enumerate(shards)), workers=len(shards))
+    # verdicts come first: a shard that could not be evaluated only matters if no other shard found a deviation
+    shard_errors = [o for o in outs if isinstance(o, lib.InfraError)]
+    outs = [o for o in outs if not isinstance(o, lib.InfraError)]
+    if shard_errors and not any(o[0] is not None for o in outs):
+        raise shard_errors[0]
+    for ex in shard_errors:
+        lib.log("note: a trace shard could not be evaluated (reported only because other shards already hold a verdict): %s" % str(ex)[:600])
     cov["trace_wall_s"] = round(time.time() - t, 1)
     rejected = [o[0] for o in outs if o[0] is not None]
     devs = [d for o in outs for d in o[2]]
@@ -924,7 +941,7 @@ def c07_code_to_spec(tier, seed, cov, binary=None, plan=None):
         viol.append(("trace", {"kind": "trace", "plan": it, "failing": failing}, msg))
     if not rejected:
         cov["traces_validated_against_impl"] += len(lines)
-        if full:
+        if full and not shard_errors:
             need = ["fork_phase0", "fork_altair", "boundary_upgrade", "boundary_rotate", "has_pending_validator",
                     "has_exited_validator", "has_slashed_validator", "unequal_effective_balances_among_active",
                     "next_epoch_active_set_differs", "several_committees_per_slot", "committee_sizes_differ_by_one",
@@ -970,7 +987,14 @@ def c07_main(tier, seed, replay=None):
         viol = c07_replay(replay, cov)
         return finish("C07", tier, seed, cov, viol, t0, "replayed")
     viol = c07_spec_to_code(tier, seed, cov)
-    viol += c07_code_to_spec(tier, seed, cov)
+    try:
+        viol += c07_code_to_spec(tier, seed, cov)
+    except lib.InfraError as ex:
+        # verdicts come first: deviations already observed on the real code are reported even if the other
+        # direction could not be evaluated
+        if not viol:
+            raise
+        lib.log("note: the code -> spec direction could not be evaluated (%s); reporting the deviations already observed" % str(ex)[:800])
     return finish("C07", tier, seed, cov, viol, t0, tier)
 
 
@@ -1064,6 +1088,11 @@ def selftest():
     e["state_sync_next_agg"][5] ^= 1
     bad, _, _, _ = validate_committee_trace(cl[:up] + [json.dumps(e)], "st-agg", set())
     out["c07_wrong_stored_aggregate_pubkey_rejected"] = bad == up
+    # seats that differ from the specification's have no BLS-oracle entry: that must be a mismatch, not a TLC error
+    e = json.loads(cl[0])
+    e["agg_oracle"] = []
+    bad, _, _, _ = validate_committee_trace([json.dumps(e)], "st-noagg", set())
+    out["c07_missing_oracle_entry_is_a_mismatch_not_an_error"] = bad == 0
     # ---- C07 replayer with a canned mutation
     _, _, ccases = run_committee_job(("st-gen", cfg_text({"MinV": 1, "TwoStatus": "FALSE", "MaxV": 10, "GenSeed": 3, "NCases": 2, "Emit": "TRUE"},
                                                          "InitB", "NextB", ["InvB"]), 2, 900, True))
